@@ -12,11 +12,15 @@
 // test binary.  Code that also WRITES such a block (BytesMut::resize) would commit the pages: the one
 // field known to do that (DATA_FRAG.sampleSize) is therefore enumerated up to 1 GiB only.
 // Oracle, from the property statement: while the real code processes ONE wire input of n bytes
-//     largest single request  <=  SINGLE_BASE + 16 * n         (SINGLE_BASE = 64 KiB)
-//     total bytes requested   <=  TOTAL_BASE  + 64 * n         (TOTAL_BASE  = 192 KiB)
-// 64 KiB is what a 16-bit length field (parameter length, octetsToNextHeader) can legitimately name, so
-// a request up to it is not "out of proportion"; nothing in a datagram legitimately names more than
-// 64 KiB + its own size.  Measured maxima on the unchanged tree are stated next to the constants.
+//     a. datagram:               largest single request <= 64 KiB + 16 n,  total requested <= 160 KiB + 64 n
+//     b./c. discovery / CDR payload:                    <=  4 KiB + 16 n,                  <=  16 KiB + 64 n
+// 64 KiB is what a 16-bit length field (parameter length, octetsToNextHeader) can legitimately name, so a
+// request up to it is not "out of proportion"; nothing in a datagram legitimately names more than that plus
+// its own size.  The constants are as tight as the unchanged tree allows (measured maxima, see `Allowance`):
+// datagrams: largest 65536 for n = 64 (DATA_FRAG sampleSize 65536; a 16-bit parameter length of 65535 read
+// through a stream reader gives 65535), total 149400 for n = 52 (DATA_FRAG sampleSize 65536 / fragmentSize 8,
+// then the HEARTBEAT that makes the reader collect the 8191 missing fragment numbers for a NACK_FRAG);
+// payloads: largest 2048, total 7412 for n = 548, CDR: 192 / 303 for n = 64.
 // Entry points and enumeration (the bound):
 //   every input is a hand-assembled, well-formed, minimal wire image (written from the RTPS 2.5 / DDS-RPC
 //   wire layouts, not with the crate's serialisers) in BOTH byte orders; ONE field at a time is
@@ -214,32 +218,42 @@ mod verif_xc_alloc_bound {
 
   // ================================================================== the oracle
 
-  // Measured on the unchanged tree (maximum over all enumerated inputs of  observed - per_byte * n):
-  //   largest single request: 65535 (a 16-bit parameter length read through a stream reader pre-sizes
-  //   its Vec<u8> before the bytes are there; DATA_FRAG sampleSize 65536 is the other maximum: 65536)
-  //   total: ~137 KiB (DATA_FRAG sampleSize 65536 / fragmentSize 1, then the HEARTBEAT that makes the
-  //   reader list the 65535 missing fragments)
-  const SINGLE_BASE: usize = 64 * 1024;
   const SINGLE_PER_BYTE: usize = 16;
-  const TOTAL_BASE: usize = 192 * 1024;
   const TOTAL_PER_BYTE: usize = 64;
+  #[derive(Clone, Copy)]
+  struct Allowance {
+    single_base: usize,
+    total_base: usize,
+  }
+  // a. datagrams; measured maximum of (largest - 16 n) = 64512, of (total - 64 n) = 146072
+  const DATAGRAM: Allowance = Allowance { single_base: 64 * 1024, total_base: 160 * 1024 };
+  // b., c. discovery / CDR payloads: nothing in them is framed by a 16-bit length that the reader
+  // pre-sizes from; observed maxima are 2048 / 7372 bytes for a 536-byte payload, i.e. below 16n / 64n
+  const PAYLOAD: Allowance = Allowance { single_base: 4 * 1024, total_base: 16 * 1024 };
 
   const VALUES: [u32; 9] = [0, 1, 255, 256, 65535, 65536, 1_000_000, 0x7FFF_FFFF, 0xFFFF_FFFF];
 
-  #[derive(Default)]
   struct Stats {
+    allow: Allowance,
     cases: usize,
     deep: usize, // inputs that the real code accepted / acted on (entry specific)
     worst_single: usize, // max of largest - SINGLE_PER_BYTE * n
     worst_total: usize,
     worst_single_at: String,
     worst_total_at: String,
+    max_largest: (usize, usize), // (largest single request, input length) of the input with the largest request
+    max_total: (usize, usize),
     witnesses: Vec<String>,
   }
 
   impl Stats {
+    fn new(allow: Allowance) -> Stats {
+      Stats { allow, cases: 0, deep: 0, worst_single: 0, worst_total: 0, worst_single_at: String::new(), worst_total_at: String::new(), max_largest: (0, 0), max_total: (0, 0), witnesses: vec![] }
+    }
     fn judge(&mut self, label: &str, encoding: &str, value: u32, input_len: usize, u: Usage) {
       self.cases += 1;
+      if u.largest > self.max_largest.0 { self.max_largest = (u.largest, input_len); }
+      if u.total > self.max_total.0 { self.max_total = (u.total, input_len); }
       let s = u.largest.saturating_sub(SINGLE_PER_BYTE * input_len);
       let t = u.total.saturating_sub(TOTAL_PER_BYTE * input_len);
       if s > self.worst_single {
@@ -250,14 +264,15 @@ mod verif_xc_alloc_bound {
         self.worst_total = t;
         self.worst_total_at = format!("{label} {encoding} value={value}");
       }
-      if s > SINGLE_BASE || t > TOTAL_BASE {
+      let (single_base, total_base) = (self.allow.single_base, self.allow.total_base);
+      if s > single_base || t > total_base {
         let w = format!(
           "XC-WITNESS label={label} encoding={encoding} value={value} input_len={input_len} largest_request={} total={} (allocator calls {}): {}",
           u.largest, u.total, u.calls,
-          if s > SINGLE_BASE {
-            format!("one allocation request of {} bytes while processing {} received bytes; allowed {} + {}*n = {}", u.largest, input_len, SINGLE_BASE, SINGLE_PER_BYTE, SINGLE_BASE + SINGLE_PER_BYTE * input_len)
+          if s > single_base {
+            format!("one allocation request of {} bytes while processing {} received bytes; allowed {} + {}*n = {}", u.largest, input_len, single_base, SINGLE_PER_BYTE, single_base + SINGLE_PER_BYTE * input_len)
           } else {
-            format!("{} bytes requested in total while processing {} received bytes; allowed {} + {}*n = {}", u.total, input_len, TOTAL_BASE, TOTAL_PER_BYTE, TOTAL_BASE + TOTAL_PER_BYTE * input_len)
+            format!("{} bytes requested in total while processing {} received bytes; allowed {} + {}*n = {}", u.total, input_len, total_base, TOTAL_PER_BYTE, total_base + TOTAL_PER_BYTE * input_len)
           }
         );
         if self.witnesses.len() < 12 {
@@ -268,8 +283,9 @@ mod verif_xc_alloc_bound {
     }
     fn finish(&self, what: &str) {
       println!(
-        "alloc_bound {what}: {} inputs, {} acted on; worst largest-16n = {} at [{}]; worst total-64n = {} at [{}]",
-        self.cases, self.deep, self.worst_single, self.worst_single_at, self.worst_total, self.worst_total_at
+        "alloc_bound {what}: {} inputs, {} acted on; worst largest-16n = {} at [{}]; worst total-64n = {} at [{}]; absolute maxima: largest {} (n={}), total {} (n={})",
+        self.cases, self.deep, self.worst_single, self.worst_single_at, self.worst_total, self.worst_total_at,
+        self.max_largest.0, self.max_largest.1, self.max_total.0, self.max_total.1
       );
       assert!(self.witnesses.is_empty(), "{}\n({} more inputs of this test may violate the bound; the first {} are printed above)", self.witnesses[0], self.witnesses.len() - 1, self.witnesses.len());
     }
@@ -355,12 +371,17 @@ mod verif_xc_alloc_bound {
     }
   }
 
+  // work.alloc.<entry>.<field>; a field named after its submessage is not prefixed twice
+  fn label(entry: &str, field: &str) -> String {
+    if field.starts_with(&format!("{entry}.")) { format!("work.alloc.{field}") } else { format!("work.alloc.{entry}.{field}") }
+  }
+
   fn enc_name(image_be: bool, value_be: bool) -> String {
     format!("{}-image/{}-value", if image_be { "BE" } else { "LE" }, if value_be { "BE" } else { "LE" })
   }
 
   // All single-field mutations of an image: (label suffix, value, value byte order, mutated bytes)
-  fn mutations(w: &Wire, blind: bool) -> Vec<(String, u32, bool, Vec<u8>)> {
+  fn mutations(w: &Wire, blind: bool) -> Vec<(String, usize, u32, bool, Vec<u8>)> {
     let mut out = vec![];
     let mut push = |name: String, off: usize, width: usize| {
       for v in VALUES {
@@ -374,7 +395,7 @@ mod verif_xc_alloc_bound {
             let e = if vbe { v.to_be_bytes() } else { v.to_le_bytes() };
             b[off..off + 4].copy_from_slice(&e);
           }
-          out.push((name.clone(), v, vbe, b));
+          out.push((name.clone(), off, v, vbe, b));
         }
       }
     };
@@ -616,119 +637,144 @@ mod verif_xc_alloc_bound {
     vec![w]
   }
 
+  fn frag1_of_3(w: &mut Wire) {
+    // fragment 1 of 3 (8 of 24 bytes)
+    w.sub("datafrag", 0x16, 0);
+    data_frag_header(w, "datafrag", 1, 1, 1, 8, 24);
+    w.raw(&[0, if w.be { 0 } else { 1 }, 0, 0, 7, 0, 0, 0]);
+    w.end();
+  }
+  fn plain_data(w: &mut Wire) {
+    w.sub("data", 0x15, 0x04);
+    data_header(w, "data", 1);
+    payload(w, "data");
+    w.end();
+  }
+
+  fn e_data(be: bool, p: &[u8; 12]) -> Vec<Wire> {
+    one(be, p, |w| {
+      w.sub("info_ts", 0x09, 0).f32("info_ts.seconds", 1_700_000_000).f32("info_ts.fraction", 5).end();
+      w.sub("data", 0x15, 0x02 | 0x04);
+      data_header(w, "data", 1);
+      inline_qos(w, "data");
+      payload(w, "data");
+      w.end();
+    })
+  }
+  fn e_data_plain(be: bool, p: &[u8; 12]) -> Vec<Wire> { one(be, p, plain_data) }
+  fn e_data_key(be: bool, p: &[u8; 12]) -> Vec<Wire> {
+    one(be, p, |w| {
+      // dispose: inline QoS + serialized key
+      w.sub("data", 0x15, 0x02 | 0x08);
+      data_header(w, "data", 1);
+      inline_qos(w, "data");
+      w.raw(&[0, if w.be { 0 } else { 1 }, 0, 0]).u32(7).u32(0);
+      w.end();
+    })
+  }
+  fn e_datafrag(be: bool, p: &[u8; 12]) -> Vec<Wire> { one(be, p, frag1_of_3) }
+  fn e_datafrag_complete(be: bool, p: &[u8; 12]) -> Vec<Wire> {
+    one(be, p, |w| {
+      // all 3 fragments in one submessage: the sample is assembled and handed on
+      w.sub("datafrag", 0x16, 0);
+      data_frag_header(w, "datafrag", 1, 1, 3, 8, 24);
+      w.raw(&[0, if w.be { 0 } else { 1 }, 0, 0]).u32(7).u32(0).u32(4).raw(b"RED\0").raw(&[0; 4]);
+      w.end();
+    })
+  }
+  fn e_datafrag_qos(be: bool, p: &[u8; 12]) -> Vec<Wire> {
+    one(be, p, |w| {
+      w.sub("datafrag", 0x16, 0x02);
+      data_frag_header(w, "datafrag", 2, 2, 1, 8, 24);
+      inline_qos(w, "datafrag");
+      w.raw(&[1; 8]);
+      w.end();
+    })
+  }
+  fn e_datafrag_then_heartbeat(be: bool, p: &[u8; 12]) -> Vec<Wire> {
+    // the reader answers the HEARTBEAT with a NACK_FRAG listing the missing fragments of sample 1
+    let mut v = one(be, p, frag1_of_3);
+    v.extend(one(be, p, |w| heartbeat(w, "heartbeat", 1, 1, 1)));
+    v
+  }
+  fn e_heartbeat(be: bool, p: &[u8; 12]) -> Vec<Wire> { one(be, p, |w| heartbeat(w, "heartbeat", 1, 3, 1)) }
+  fn e_gap(be: bool, p: &[u8; 12]) -> Vec<Wire> {
+    one(be, p, |w| {
+      w.sub("gap", 0x08, 0).raw(&READER_EID).raw(&WRITER_EID);
+      w.sn("gap.gap_start", 1).sn("gap.gap_list.base", 3);
+      w.f32("gap.gap_list.num_bits", 33).f32("gap.gap_list.bitmap[0]", 0xA000_0000).f32("gap.gap_list.bitmap[1]", 0x8000_0000).end();
+    })
+  }
+  fn e_heartbeat_frag(be: bool, p: &[u8; 12]) -> Vec<Wire> {
+    one(be, p, |w| {
+      frag1_of_3(w);
+      w.sub("heartbeat_frag", 0x13, 0).raw(&READER_EID).raw(&WRITER_EID);
+      w.sn("heartbeat_frag.writer_sn", 1).f32("heartbeat_frag.last_fragment_num", 2).f32("heartbeat_frag.count", 1).end();
+    })
+  }
+  fn e_acknack(be: bool, p: &[u8; 12]) -> Vec<Wire> {
+    one(be, p, |w| {
+      w.sub("acknack", 0x06, 0).raw(&REMOTE_READER_EID).raw(&LOCAL_WRITER_EID);
+      w.sn("acknack.reader_sn_state.base", 1);
+      w.f32("acknack.reader_sn_state.num_bits", 33).f32("acknack.reader_sn_state.bitmap[0]", 0xC000_0000).f32("acknack.reader_sn_state.bitmap[1]", 0x8000_0000);
+      w.f32("acknack.count", 1).end();
+    })
+  }
+  fn e_nack_frag(be: bool, p: &[u8; 12]) -> Vec<Wire> {
+    one(be, p, |w| {
+      w.sub("nack_frag", 0x12, 0).raw(&REMOTE_READER_EID).raw(&LOCAL_WRITER_EID);
+      w.sn("nack_frag.writer_sn", 1);
+      w.f32("nack_frag.fragment_number_state.base", 1).f32("nack_frag.fragment_number_state.num_bits", 32).f32("nack_frag.fragment_number_state.bitmap[0]", 0xF000_0000);
+      w.f32("nack_frag.count", 1).end();
+    })
+  }
+  fn e_info_ts(be: bool, p: &[u8; 12]) -> Vec<Wire> {
+    one(be, p, |w| {
+      w.sub("info_ts", 0x09, 0).f32("info_ts.seconds", 1_700_000_000).f32("info_ts.fraction", 5).end();
+      plain_data(w);
+      heartbeat(w, "heartbeat", 1, 2, 1);
+    })
+  }
+  fn e_info_src(be: bool, p: &[u8; 12]) -> Vec<Wire> {
+    one(be, p, |w| {
+      // the source named by INFO_SRC is the matched writer; the header carries another prefix
+      let mut other = *p;
+      other[11] ^= 0xFF;
+      w.b.truncate(8);
+      w.raw(&other);
+      w.sub("info_src", 0x0c, 0).f32("info_src.unused", 0).raw(&[2, 4, 1, 18]).raw(p).end();
+      plain_data(w);
+      heartbeat(w, "heartbeat", 1, 2, 1);
+    })
+  }
+  fn e_info_dst(be: bool, p: &[u8; 12]) -> Vec<Wire> {
+    one(be, p, |w| {
+      w.sub("info_dst", 0x0e, 0).raw(&OWN_PREFIX).end();
+      plain_data(w);
+      heartbeat(w, "heartbeat", 1, 2, 1);
+    })
+  }
+  fn e_info_reply(be: bool, p: &[u8; 12]) -> Vec<Wire> { one(be, p, info_reply_image) }
+
+  // name, number of submessages of the last datagram of the unmodified input, builder
   fn entries() -> Vec<(&'static str, usize, Build)> {
     vec![
-      ("data", 2, |be, p| one(be, p, |w| {
-        w.sub("info_ts", 0x09, 0).f32("info_ts.seconds", 1_700_000_000).f32("info_ts.fraction", 5).end();
-        w.sub("data", 0x15, 0x02 | 0x04);
-        data_header(w, "data", 1);
-        inline_qos(w, "data");
-        payload(w, "data");
-        w.end();
-      })),
-      ("data_plain", 1, |be, p| one(be, p, |w| {
-        w.sub("data", 0x15, 0x04);
-        data_header(w, "data", 1);
-        payload(w, "data");
-        w.end();
-      })),
-      ("data_key", 1, |be, p| one(be, p, |w| {
-        // dispose: inline QoS + serialized key
-        w.sub("data", 0x15, 0x02 | 0x08);
-        data_header(w, "data", 1);
-        inline_qos(w, "data");
-        w.raw(&[0, if w.be { 0 } else { 1 }, 0, 0]).u32(7).u32(0);
-        w.end();
-      })),
-      ("datafrag", 1, |be, p| one(be, p, |w| {
-        // fragment 1 of 3 (8 of 24 bytes)
-        w.sub("datafrag", 0x16, 0);
-        data_frag_header(w, "datafrag", 1, 1, 1, 8, 24);
-        w.raw(&[0, if w.be { 0 } else { 1 }, 0, 0, 7, 0, 0, 0]);
-        w.end();
-      })),
-      ("datafrag_complete", 1, |be, p| one(be, p, |w| {
-        // all 3 fragments in one submessage: the sample is assembled and handed on
-        w.sub("datafrag", 0x16, 0);
-        data_frag_header(w, "datafrag", 1, 1, 3, 8, 24);
-        w.raw(&[0, if w.be { 0 } else { 1 }, 0, 0]).u32(7).u32(0).u32(4).raw(b"RED\0").raw(&[0; 4]);
-        w.end();
-      })),
-      ("datafrag_qos", 1, |be, p| one(be, p, |w| {
-        w.sub("datafrag", 0x16, 0x02);
-        data_frag_header(w, "datafrag", 2, 2, 1, 8, 24);
-        inline_qos(w, "datafrag");
-        w.raw(&[1; 8]);
-        w.end();
-      })),
-      ("datafrag_then_heartbeat", 1, |be, p| {
-        // the reader answers the HEARTBEAT with a NACK_FRAG listing the missing fragments of sample 1
-        let mut v = one(be, p, |w| {
-          w.sub("datafrag", 0x16, 0);
-          data_frag_header(w, "datafrag", 1, 1, 1, 8, 24);
-          w.raw(&[0, if w.be { 0 } else { 1 }, 0, 0, 7, 0, 0, 0]);
-          w.end();
-        });
-        v.extend(one(be, p, |w| heartbeat(w, "heartbeat", 1, 1, 1)));
-        v
-      }),
-      ("heartbeat", 1, |be, p| one(be, p, |w| heartbeat(w, "heartbeat", 1, 3, 1))),
-      ("gap", 1, |be, p| one(be, p, |w| {
-        w.sub("gap", 0x08, 0).raw(&READER_EID).raw(&WRITER_EID);
-        w.sn("gap.gap_start", 1).sn("gap.gap_list.base", 3);
-        w.f32("gap.gap_list.num_bits", 33).f32("gap.gap_list.bitmap[0]", 0xA000_0000).f32("gap.gap_list.bitmap[1]", 0x8000_0000).end();
-      })),
-      ("heartbeat_frag", 2, |be, p| one(be, p, |w| {
-        w.sub("datafrag", 0x16, 0);
-        data_frag_header(w, "datafrag", 1, 1, 1, 8, 24);
-        w.raw(&[0, if w.be { 0 } else { 1 }, 0, 0, 7, 0, 0, 0]);
-        w.end();
-        w.sub("heartbeat_frag", 0x13, 0).raw(&READER_EID).raw(&WRITER_EID);
-        w.sn("heartbeat_frag.writer_sn", 1).f32("heartbeat_frag.last_fragment_num", 2).f32("heartbeat_frag.count", 1).end();
-      })),
-      ("acknack", 1, |be, p| one(be, p, |w| {
-        w.sub("acknack", 0x06, 0).raw(&REMOTE_READER_EID).raw(&LOCAL_WRITER_EID);
-        w.sn("acknack.reader_sn_state.base", 1);
-        w.f32("acknack.reader_sn_state.num_bits", 33).f32("acknack.reader_sn_state.bitmap[0]", 0xC000_0000).f32("acknack.reader_sn_state.bitmap[1]", 0x8000_0000);
-        w.f32("acknack.count", 1).end();
-      })),
-      ("nack_frag", 1, |be, p| one(be, p, |w| {
-        w.sub("nack_frag", 0x12, 0).raw(&REMOTE_READER_EID).raw(&LOCAL_WRITER_EID);
-        w.sn("nack_frag.writer_sn", 1);
-        w.f32("nack_frag.fragment_number_state.base", 1).f32("nack_frag.fragment_number_state.num_bits", 32).f32("nack_frag.fragment_number_state.bitmap[0]", 0xF000_0000);
-        w.f32("nack_frag.count", 1).end();
-      })),
-      ("info_ts", 3, |be, p| one(be, p, |w| {
-        w.sub("info_ts", 0x09, 0).f32("info_ts.seconds", 1_700_000_000).f32("info_ts.fraction", 5).end();
-        w.sub("data", 0x15, 0x04);
-        data_header(w, "data", 1);
-        payload(w, "data");
-        w.end();
-        heartbeat(w, "heartbeat", 1, 2, 1);
-      })),
-      ("info_src", 3, |be, p| one(be, p, |w| {
-        // the source named by INFO_SRC is the matched writer; the header carries another prefix
-        let src = *p;
-        let mut other = *p;
-        other[11] ^= 0xFF;
-        w.b.truncate(8);
-        w.raw(&other);
-        w.sub("info_src", 0x0c, 0).f32("info_src.unused", 0).raw(&[2, 4, 1, 18]).raw(&src).end();
-        w.sub("data", 0x15, 0x04);
-        data_header(w, "data", 1);
-        payload(w, "data");
-        w.end();
-        heartbeat(w, "heartbeat", 1, 2, 1);
-      })),
-      ("info_dst", 3, |be, p| one(be, p, |w| {
-        w.sub("info_dst", 0x0e, 0).raw(&OWN_PREFIX).end();
-        w.sub("data", 0x15, 0x04);
-        data_header(w, "data", 1);
-        payload(w, "data");
-        w.end();
-        heartbeat(w, "heartbeat", 1, 2, 1);
-      })),
-      ("info_reply", 3, |be, p| one(be, p, info_reply_image)),
+      ("data", 2, e_data as Build),
+      ("data_plain", 1, e_data_plain as Build),
+      ("data_key", 1, e_data_key as Build),
+      ("datafrag", 1, e_datafrag as Build),
+      ("datafrag_complete", 1, e_datafrag_complete as Build),
+      ("datafrag_qos", 1, e_datafrag_qos as Build),
+      ("datafrag_then_heartbeat", 1, e_datafrag_then_heartbeat as Build),
+      ("heartbeat", 1, e_heartbeat as Build),
+      ("gap", 1, e_gap as Build),
+      ("heartbeat_frag", 2, e_heartbeat_frag as Build),
+      ("acknack", 1, e_acknack as Build),
+      ("nack_frag", 1, e_nack_frag as Build),
+      ("info_ts", 3, e_info_ts as Build),
+      ("info_src", 3, e_info_src as Build),
+      ("info_dst", 3, e_info_dst as Build),
+      ("info_reply", 3, e_info_reply as Build),
     ]
   }
 
@@ -753,27 +799,34 @@ mod verif_xc_alloc_bound {
     if be { u32::from_be_bytes(x) } else { u32::from_le_bytes(x) }
   }
 
-  // The two fields that are finding candidates on the unchanged tree are kept inside the oracle's range
-  // here (and enumerated beyond it in the #[ignore]d tests): would the receiver, reading the mutated
-  // image with the byte order its flags now declare, see DATA_FRAG.sampleSize > 65536 or an INFO_REPLY
-  // locator count > 256?
-  fn is_known_candidate(w: &Wire, mutated: &[u8]) -> bool {
+  // The two finding candidates of the unchanged tree are kept out of the passing test and enumerated in
+  // the #[ignore]d tests below:
+  // (1) DATA_FRAG.sampleSize: would the receiver, reading the mutated image with the byte order its
+  //     (possibly mutated) flags octet declares, see a sampleSize > 65536?
+  fn datafrag_size_candidate(w: &Wire, mutated: &[u8]) -> bool {
     for f in &w.fields {
-      let limit = if f.name.ends_with("datafrag.data_size") { 65536 }
-        else if f.name == "info_reply.unicast.count" || f.name == "info_reply.multicast.count" { 256 }
-        else { continue };
-      for be in [false, true] {
-        // either byte order: a mutation of the flags octet may flip the E flag
-        if read32(mutated, f.off, be) > limit && (be != w.be || mutated[f.off..f.off + 4] != w.b[f.off..f.off + 4]) { return true; }
-      }
+      if f.name != "datafrag.data_size" { continue; }
+      let sub = *w.sub_starts.iter().filter(|s| **s <= f.off).last().expect("field outside a submessage");
+      let be = mutated[sub + 1] & 1 == 0;
+      if read32(mutated, f.off, be) > 65536 { return true; }
     }
     false
   }
+  // (2) every mutation inside the INFO_REPLY submessage (any of them can move the locator count)
+  fn in_info_reply(entry: &str, w: &Wire, off: usize) -> bool {
+    entry == "info_reply" && off >= w.sub_starts[0] && off < w.sub_starts[1]
+  }
 
-  fn run_datagram_entries(only: &[&str], blind: bool, stats: &mut Stats) {
+  #[derive(Clone, Copy, PartialEq)]
+  enum Scope {
+    Passing,       // everything but the two finding candidates
+    InfoReplyOnly, // only the mutations inside the INFO_REPLY submessage
+  }
+
+  fn run_datagram_entries(scope: Scope, stats: &mut Stats) {
     let mut rig = Rig::new();
     for (entry, n_sub, build) in entries() {
-      if !only.is_empty() && !only.contains(&entry) { continue; }
+      if scope == Scope::InfoReplyOnly && entry != "info_reply" { continue; }
       for be in [false, true] {
         // the unmodified image is well-formed: the real parser accepts it and the interpreter sees all
         // its submessages
@@ -785,24 +838,27 @@ mod verif_xc_alloc_bound {
         let (us, count) = rig.process(prefix, &base.iter().map(|w| w.b.clone()).collect::<Vec<_>>());
         assert!(count == n_sub, "test setup: entry {entry} (be={be}): interpreter saw {count} submessages, expected {n_sub}");
         for (u, w) in us.iter().zip(&base) {
-          stats.judge(&format!("work.alloc.{entry}.unmodified"), &enc_name(be, be), 0, w.b.len(), *u);
+          stats.judge(&label(entry, "unmodified"), &enc_name(be, be), 0, w.b.len(), *u);
         }
         rig.drain_replies();
         // one field at a time, in each datagram of the input
         for k in 0..base.len() {
-          for (field, value, vbe, bytes) in mutations(&base[k], blind) {
-            if is_known_candidate(&base[k], &bytes) { continue; }
+          for (field, off, value, vbe, bytes) in mutations(&base[k], true) {
+            match scope {
+              Scope::Passing => if datafrag_size_candidate(&base[k], &bytes) || in_info_reply(entry, &base[k], off) { continue; },
+              Scope::InfoReplyOnly => if !in_info_reply(entry, &base[k], off) { continue; },
+            }
             let prefix = rig.fresh_prefix();
             let mut dgrams: Vec<Vec<u8>> = build(be, &prefix).into_iter().map(|w| w.b).collect();
-            // keep the mutation, take the fresh source prefix (unless the mutation is in the header)
+            // keep the mutation, take the fresh source prefix (unless the mutation is in the prefix)
             let mut m = bytes.clone();
             if m[8..20] == base[k].b[8..20] { m[8..20].copy_from_slice(&dgrams[k][8..20]); }
-            if m.len() >= 44 && dgrams[k].len() >= 44 && entry == "info_src" && m[32..44] == base[k].b[32..44] { m[32..44].copy_from_slice(&dgrams[k][32..44]); }
+            if entry == "info_src" && m[32..44] == base[k].b[32..44] { m[32..44].copy_from_slice(&dgrams[k][32..44]); }
             dgrams[k] = m;
             let (us, count) = rig.process(prefix, &dgrams);
             if count == n_sub { stats.deep += 1; }
             for (u, d) in us.iter().zip(&dgrams) {
-              stats.judge(&format!("work.alloc.{entry}.{field}"), &enc_name(be, vbe), value, d.len(), *u);
+              stats.judge(&label(entry, &field), &enc_name(be, vbe), value, d.len(), *u);
             }
             rig.drain_replies();
           }
@@ -810,7 +866,7 @@ mod verif_xc_alloc_bound {
       }
     }
     println!("alloc_bound datagrams: {} ACKNACK/NACK_FRAG replies of the reader observed, {} ACKNACKs handed to the writer", rig.n_replies, rig.n_acknacks_to_writer);
-    if only.is_empty() {
+    if scope == Scope::Passing {
       assert!(rig.n_replies > 1000 && rig.n_acknacks_to_writer > 100, "vacuity guard: {} replies of the reader, {} ACKNACKs reached the writer", rig.n_replies, rig.n_acknacks_to_writer);
     }
   }
@@ -833,15 +889,15 @@ mod verif_xc_alloc_bound {
     assert!(u.largest == 24 << 30 && v.capacity() == 3 << 30, "probe self test (lazy): {:?}", u);
     drop(v);
     // and the oracle rejects it
-    let mut s = Stats::default();
+    let mut s = Stats::new(DATAGRAM);
     s.judge("work.alloc.selftest", "-", 0, 100, u);
     assert!(s.witnesses.len() == 1 && s.witnesses[0].starts_with("XC-WITNESS label=work.alloc.selftest "));
   }
 
   #[test]
   fn xc_alloc_datagrams_named_and_blind() {
-    let mut stats = Stats::default();
-    run_datagram_entries(&[], true, &mut stats);
+    let mut stats = Stats::new(DATAGRAM);
+    run_datagram_entries(Scope::Passing, &mut stats);
     assert!(stats.cases > 30_000 && stats.deep > 10_000, "vacuity guard: {} inputs, {} interpreted completely", stats.cases, stats.deep);
     stats.finish("datagrams");
   }
@@ -856,7 +912,7 @@ mod verif_xc_alloc_bound {
   #[test]
   #[ignore]
   fn xc_alloc_finding_datafrag_data_size() {
-    let mut stats = Stats::default();
+    let mut stats = Stats::new(DATAGRAM);
     let mut rig = Rig::new();
     for be in [false, true] {
       for value in [65_537u32, 1_000_000, 1 << 28, 1 << 30] {
@@ -882,21 +938,8 @@ mod verif_xc_alloc_bound {
   #[test]
   #[ignore]
   fn xc_alloc_finding_info_reply_locator_count() {
-    let mut stats = Stats::default();
-    let mut rig = Rig::new();
-    for be in [false, true] {
-      for field in ["info_reply.unicast.count", "info_reply.multicast.count"] {
-        for value in [65_535u32, 65_536, 1_000_000, 0x7FFF_FFFF, 0xFFFF_FFFF] {
-          let prefix = rig.fresh_prefix();
-          let mut w = one(be, &prefix, info_reply_image).remove(0);
-          let f = w.fields.iter().find(|f| f.name == field).unwrap().clone();
-          let e = if be { value.to_be_bytes() } else { value.to_le_bytes() };
-          w.b[f.off..f.off + 4].copy_from_slice(&e);
-          let (us, _) = rig.process(prefix, &[w.b.clone()]);
-          stats.judge(&format!("work.alloc.{field}"), &enc_name(be, be), value, w.b.len(), us[0]);
-        }
-      }
-    }
+    let mut stats = Stats::new(DATAGRAM);
+    run_datagram_entries(Scope::InfoReplyOnly, &mut stats);
     stats.finish("INFO_REPLY locator count");
   }
 
@@ -926,6 +969,8 @@ mod verif_xc_alloc_bound {
     w.param("unassigned_pid", 0x3ffe).f32("unassigned_pid.word0", 4).raw(&[1, 2, 3, 4]).end();
     w.param("vendor_pid", 0x8007).f32("vendor_pid.word0", 1).end();
     w.param("pad", 0x0000).raw(&[0; 4]).end();
+    // PID_ENDPOINT_SECURITY_INFO (read only with --features security)
+    w.param("endpoint_security_info", 0x1004).f32("endpoint_security_info.attributes", 0x8000_0000).f32("endpoint_security_info.plugin_attributes", 0x8000_0000).end();
   }
 
   fn endpoint_qos(w: &mut Wire) {
@@ -958,6 +1003,17 @@ mod verif_xc_alloc_bound {
     w.param("manual_liveliness_count", 0x0034).f32("manual_liveliness_count.value", 0).end();
     w.param("expects_inline_qos", 0x0043).raw(&[0, 0, 0, 0]).end();
     w.param("entity_name", 0x0062).string("entity_name.strlen", "participant").end();
+    // DDS Security (read only with --features security): IdentityToken / PermissionsToken are DataHolders
+    // = class_id, sequence<Property>, sequence<BinaryProperty>; ParticipantSecurityInfo = two masks
+    for (name, pid) in [("identity_token", 0x1001u16), ("permissions_token", 0x1002)] {
+      w.param(name, pid).string(&format!("{name}.class_id.strlen"), "DDS:Auth:PKI-DH:1.0").pad4()
+        .f32(&format!("{name}.properties.count"), 1)
+        .string(&format!("{name}.properties[0].name.strlen"), "dds.cert.sn").string(&format!("{name}.properties[0].value.strlen"), "CN=x").pad4()
+        .f32(&format!("{name}.binary_properties.count"), 1)
+        .string(&format!("{name}.binary_properties[0].name.strlen"), "c.id").pad4()
+        .f32(&format!("{name}.binary_properties[0].value.len"), 3).raw(&[1, 2, 3]).end();
+    }
+    w.param("participant_security_info", 0x1005).f32("participant_security_info.attributes", 0x8000_0000).f32("participant_security_info.plugin_attributes", 0x8000_0000).end();
     common_params(&mut w);
     w.sentinel("sentinel");
     w
@@ -1026,9 +1082,9 @@ mod verif_xc_alloc_bound {
       let (r, u) = measure(|| parse(&base.b, rep));
       assert!(r.is_ok(), "test setup: the unmodified {entry} image (be={be}) is rejected: {:?}", r.err());
       drop(r);
-      stats.judge(&format!("work.alloc.{entry}.unmodified"), &enc_name(be, be), 0, base.b.len(), u);
+      stats.judge(&label(entry, "unmodified"), &enc_name(be, be), 0, base.b.len(), u);
       // a parameter that claims the rest of the payload / more than the payload
-      let mut variants: Vec<(String, u32, bool, Vec<u8>)> = mutations(&base, true);
+      let mut variants: Vec<(String, u32, bool, Vec<u8>)> = mutations(&base, true).into_iter().map(|(f, _, v, vbe, b)| (f, v, vbe, b)).collect();
       for extra in [0xFFFCu16, 0xFFFF] {
         let mut w = Wire::new(be);
         w.u16(0x0072).u16(extra).raw(&[0; 8]);
@@ -1040,20 +1096,42 @@ mod verif_xc_alloc_bound {
         assert!(r.is_ok(), "XC-WITNESS label=work.alloc.nopanic entry={entry} field={field} value={value} payload={:02x?}: from_pl_cdr_bytes panicked", bytes);
         if matches!(r, Ok(Ok(_))) { stats.deep += 1; }
         drop(r);
-        stats.judge(&format!("work.alloc.{entry}.{field}"), &enc_name(be, vbe), value, bytes.len(), u);
+        stats.judge(&label(entry, &field), &enc_name(be, vbe), value, bytes.len(), u);
       }
     }
   }
 
   #[test]
   fn xc_alloc_discovery_payloads() {
-    let mut stats = Stats::default();
+    let mut stats = Stats::new(PAYLOAD);
     run_discovery("spdp", spdp_image, SpdpDiscoveredParticipantData::from_pl_cdr_bytes, &mut stats);
     run_discovery("reader_data", reader_data_image, DiscoveredReaderData::from_pl_cdr_bytes, &mut stats);
     run_discovery("writer_data", writer_data_image, DiscoveredWriterData::from_pl_cdr_bytes, &mut stats);
     run_discovery("topic_data", topic_data_image, DiscoveredTopicData::from_pl_cdr_bytes, &mut stats);
     assert!(stats.cases > 40_000 && stats.deep > 10_000, "vacuity guard: {} payloads, {} accepted", stats.cases, stats.deep);
     stats.finish("discovery payloads");
+  }
+
+  // With the security feature the same images also go through the readers that exist only there: the
+  // hand-written Readable of qos::policy::Property (PID_PROPERTY_LIST), qos::policy::DataTag
+  // (PID_DATA_TAGS, via the *BuiltinTopicDataSecure types), DataHolder (identity / permissions token).
+  #[cfg(feature = "security")]
+  #[test]
+  fn xc_alloc_security_discovery_payloads() {
+    use crate::security::types::{PublicationBuiltinTopicDataSecure, SubscriptionBuiltinTopicDataSecure};
+    let mut stats = Stats::new(PAYLOAD);
+    for be in [false, true] {
+      let rep = if be { RepresentationIdentifier::PL_CDR_BE } else { RepresentationIdentifier::PL_CDR_LE };
+      let d = SpdpDiscoveredParticipantData::from_pl_cdr_bytes(&spdp_image(be).b, rep).expect("spdp image");
+      assert!(d.property.is_some() && d.identity_token.is_some() && d.permissions_token.is_some() && d.security_info.is_some(), "test setup: security parameters of the SPDP image are not read");
+      let w = PublicationBuiltinTopicDataSecure::from_pl_cdr_bytes(&writer_data_image(be).b, rep).expect("writer image");
+      assert!(w.data_tags.map_or(false, |t| t.tags.len() == 1), "test setup: PID_DATA_TAGS of the writer image is not read");
+    }
+    run_discovery("spdp", spdp_image, SpdpDiscoveredParticipantData::from_pl_cdr_bytes, &mut stats);
+    run_discovery("publication_secure", writer_data_image, PublicationBuiltinTopicDataSecure::from_pl_cdr_bytes, &mut stats);
+    run_discovery("subscription_secure", reader_data_image, SubscriptionBuiltinTopicDataSecure::from_pl_cdr_bytes, &mut stats);
+    assert!(stats.cases > 30_000 && stats.deep > 10_000, "vacuity guard: {} payloads, {} accepted", stats.cases, stats.deep);
+    stats.finish("discovery payloads (security feature)");
   }
 
   // ================================================================== c. plain CDR
@@ -1093,20 +1171,20 @@ mod verif_xc_alloc_bound {
       let (r, u) = measure(|| <CDRDeserializerAdapter<T> as DeserializerAdapter<T>>::from_bytes(&base.b, rep));
       assert!(r.is_ok(), "test setup: the unmodified {entry} image (be={be}) is rejected: {:?}", r.err());
       drop(r);
-      stats.judge(&format!("work.alloc.{entry}.unmodified"), &enc_name(be, be), 0, base.b.len(), u);
-      for (field, value, vbe, bytes) in mutations(&base, true) {
+      stats.judge(&label(entry, "unmodified"), &enc_name(be, be), 0, base.b.len(), u);
+      for (field, _, value, vbe, bytes) in mutations(&base, true) {
         let (r, u) = measure(|| catch_unwind(AssertUnwindSafe(|| <CDRDeserializerAdapter<T> as DeserializerAdapter<T>>::from_bytes(&bytes, rep))));
         assert!(r.is_ok(), "XC-WITNESS label=work.alloc.nopanic entry={entry} field={field} value={value} payload={:02x?}: the CDR deserializer panicked", bytes);
         if matches!(r, Ok(Ok(_))) { stats.deep += 1; }
         drop(r);
-        stats.judge(&format!("work.alloc.{entry}.{field}"), &enc_name(be, vbe), value, bytes.len(), u);
+        stats.judge(&label(entry, &field), &enc_name(be, vbe), value, bytes.len(), u);
       }
     }
   }
 
   #[test]
   fn xc_alloc_cdr_payloads() {
-    let mut stats = Stats::default();
+    let mut stats = Stats::new(PAYLOAD);
     run_cdr::<ParticipantMessageData>("participant_message_data", pmd_image, &mut stats);
     run_cdr::<UserType>("cdr_user_type", user_image, &mut stats);
     assert!(stats.cases > 1_500 && stats.deep > 300, "vacuity guard: {} payloads, {} accepted", stats.cases, stats.deep);
